@@ -7,6 +7,8 @@ import (
 	"bytes"
 	"fmt"
 	"io"
+	"os"
+	"time"
 
 	json "github.com/go-json-experiment/json"
 	"github.com/go-json-experiment/json/jsontext"
@@ -185,6 +187,7 @@ func (a *towerArgs) typedTargets() []any {
 
 type towerPath struct {
 	name string
+	plus int // wrapping levels the path adds around the tower (+100: quadratic-cost path, run on a quarter of the deep towers)
 	fn   func(a *towerArgs, text []byte) (accept bool)
 }
 
@@ -198,101 +201,106 @@ func drainTokens(d *jsontext.Decoder, limit int) bool {
 }
 
 var towerPaths = []towerPath{
-	{"IsValid", func(a *towerArgs, t []byte) bool { return jsontext.Value(t).IsValid() }},
-	{"IsValid+opts", func(a *towerArgs, t []byte) bool {
+	{"IsValid", 0, func(a *towerArgs, t []byte) bool { return jsontext.Value(t).IsValid() }},
+	{"IsValid+opts", 0, func(a *towerArgs, t []byte) bool {
 		return jsontext.Value(t).IsValid(jsontext.AllowDuplicateNames(true), jsontext.AllowInvalidUTF8(true))
 	}},
-	{"ReadValue/reader", func(a *towerArgs, t []byte) bool {
+	{"ReadValue/reader", 0, func(a *towerArgs, t []byte) bool {
 		_, err := jsontext.NewDecoder(bytes.NewReader(t)).ReadValue()
 		return err == nil
 	}},
-	{"ReadValue/buffer", func(a *towerArgs, t []byte) bool {
+	{"ReadValue/buffer", 0, func(a *towerArgs, t []byte) bool {
 		_, err := jsontext.NewDecoder(bytes.NewBuffer(bytes.Clone(t))).ReadValue()
 		return err == nil
 	}},
-	{"ReadValue/onebyte", func(a *towerArgs, t []byte) bool {
+	{"ReadValue/onebyte", 0, func(a *towerArgs, t []byte) bool {
 		_, err := jsontext.NewDecoder(iotestOneByte(t)).ReadValue()
 		return err == nil
 	}},
-	{"SkipValue", func(a *towerArgs, t []byte) bool {
+	{"SkipValue", 0, func(a *towerArgs, t []byte) bool {
 		return jsontext.NewDecoder(bytes.NewReader(t)).SkipValue() == nil
 	}},
-	{"ReadToken", func(a *towerArgs, t []byte) bool {
+	{"ReadToken", 0, func(a *towerArgs, t []byte) bool {
 		return drainTokens(jsontext.NewDecoder(bytes.NewReader(t)), len(t))
 	}},
-	{"ReadToken/buffer+dup", func(a *towerArgs, t []byte) bool {
+	{"ReadToken/buffer+dup", 0, func(a *towerArgs, t []byte) bool {
 		return drainTokens(jsontext.NewDecoder(bytes.NewBuffer(bytes.Clone(t)), jsontext.AllowDuplicateNames(true)), len(t))
 	}},
-	{"Value.Format", func(a *towerArgs, t []byte) bool { v := jsontext.Value(bytes.Clone(t)); return v.Format() == nil }},
-	{"Value.Format+opts", func(a *towerArgs, t []byte) bool {
+	{"Value.Format", 0, func(a *towerArgs, t []byte) bool { v := jsontext.Value(bytes.Clone(t)); return v.Format() == nil }},
+	{"Value.Format+opts", 100, func(a *towerArgs, t []byte) bool {
 		v := jsontext.Value(bytes.Clone(t))
 		return v.Format(jsontext.SpaceAfterColon(true), jsontext.SpaceAfterComma(true), jsontext.CanonicalizeRawInts(true), jsontext.ReorderRawObjects(true)) == nil
 	}},
-	{"Value.Compact", func(a *towerArgs, t []byte) bool { v := jsontext.Value(bytes.Clone(t)); return v.Compact() == nil }},
-	{"Value.Indent/empty-indent", func(a *towerArgs, t []byte) bool {
+	{"Value.Compact", 0, func(a *towerArgs, t []byte) bool { v := jsontext.Value(bytes.Clone(t)); return v.Compact() == nil }},
+	{"Value.Indent/empty-indent", 100, func(a *towerArgs, t []byte) bool {
 		v := jsontext.Value(bytes.Clone(t))
 		return v.Indent(jsontext.WithIndent("")) == nil
 	}},
-	{"Value.Indent/default", func(a *towerArgs, t []byte) bool {
-		if a.WS || a.Sib || a.Mix == "alt2" {
-			// the default tab indentation is quadratic in the depth (~100 MB); once per mix family is enough
-			v := jsontext.Value(bytes.Clone(t))
-			return v.Indent(jsontext.WithIndent(""), jsontext.WithIndentPrefix("")) == nil
-		}
-		v := jsontext.Value(bytes.Clone(t))
-		return v.Indent() == nil
-	}},
-	{"Value.Canonicalize", func(a *towerArgs, t []byte) bool { v := jsontext.Value(bytes.Clone(t)); return v.Canonicalize() == nil }},
-	{"Value.MarshalJSON", func(a *towerArgs, t []byte) bool { _, err := jsontext.Value(t).MarshalJSON(); return err == nil }},
-	{"AppendFormat", func(a *towerArgs, t []byte) bool { _, err := jsontext.AppendFormat(nil, t); return err == nil }},
-	{"AppendFormat/string+multiline", func(a *towerArgs, t []byte) bool {
+	{"Value.Canonicalize", 0, func(a *towerArgs, t []byte) bool { v := jsontext.Value(bytes.Clone(t)); return v.Canonicalize() == nil }},
+	{"AppendFormat", 0, func(a *towerArgs, t []byte) bool { _, err := jsontext.AppendFormat(nil, t); return err == nil }},
+	{"AppendFormat/string+multiline", 100, func(a *towerArgs, t []byte) bool {
 		_, err := jsontext.AppendFormat([]byte("x"), string(t), jsontext.Multiline(true), jsontext.WithIndent(""))
 		return err == nil
 	}},
-	{"WriteToken", func(a *towerArgs, t []byte) bool {
+	{"WriteToken", 0, func(a *towerArgs, t []byte) bool {
 		return writeTowerTokens(jsontext.NewEncoder(io.Discard), a)
 	}},
-	{"WriteToken/buffer+multiline", func(a *towerArgs, t []byte) bool {
+	{"WriteToken/buffer+multiline", 100, func(a *towerArgs, t []byte) bool {
 		return writeTowerTokens(jsontext.NewEncoder(new(bytes.Buffer), jsontext.Multiline(true), jsontext.WithIndent("")), a)
 	}},
-	{"WriteValue", func(a *towerArgs, t []byte) bool {
+	{"WriteValue", 0, func(a *towerArgs, t []byte) bool {
 		return jsontext.NewEncoder(io.Discard).WriteValue(t) == nil
 	}},
-	{"WriteValue/buffer+multiline", func(a *towerArgs, t []byte) bool {
+	{"WriteValue/buffer+multiline", 100, func(a *towerArgs, t []byte) bool {
 		return jsontext.NewEncoder(new(bytes.Buffer), jsontext.Multiline(true), jsontext.WithIndent("")).WriteValue(t) == nil
 	}},
-	{"WriteValue+reformat", func(a *towerArgs, t []byte) bool {
+	{"WriteValue+reformat", 0, func(a *towerArgs, t []byte) bool {
 		return jsontext.NewEncoder(io.Discard, jsontext.SpaceAfterComma(true), jsontext.CanonicalizeRawFloats(true), jsontext.AllowDuplicateNames(true)).WriteValue(t) == nil
 	}},
-	{"Unmarshal/any", func(a *towerArgs, t []byte) bool { var v any; return json.Unmarshal(t, &v) == nil }},
-	{"Unmarshal/any+dup", func(a *towerArgs, t []byte) bool {
+	{"Unmarshal/any", 0, func(a *towerArgs, t []byte) bool { var v any; return json.Unmarshal(t, &v) == nil }},
+	{"Unmarshal/any+dup", 0, func(a *towerArgs, t []byte) bool {
 		var v any
 		return json.Unmarshal(t, &v, jsontext.AllowDuplicateNames(true)) == nil // disables the any fast path
 	}},
-	{"Unmarshal/Value", func(a *towerArgs, t []byte) bool { var v jsontext.Value; return json.Unmarshal(t, &v) == nil }},
-	{"Unmarshal/struct-any-field", func(a *towerArgs, t []byte) bool {
+	{"Unmarshal/Value", 0, func(a *towerArgs, t []byte) bool { var v jsontext.Value; return json.Unmarshal(t, &v) == nil }},
+	{"Unmarshal/struct-fields", 1, func(a *towerArgs, t []byte) bool {
 		var v struct {
 			X any
 			R jsontext.Value
 		}
 		in := append(append(append([]byte(`{"X":`), t...), `,"R":`...), t...)
 		in = append(in, '}')
-		// one wrapping object => total depth is Depth+1
-		err := json.Unmarshal(in, &v)
-		// translate to the question asked of this tower: report acceptance of depth+1 separately
-		return (err == nil) == (a.Depth+1 <= maxDepth) == (a.Depth <= maxDepth)
+		return json.Unmarshal(in, &v) == nil
 	}},
-	{"UnmarshalRead/any", func(a *towerArgs, t []byte) bool { var v any; return json.UnmarshalRead(bytes.NewReader(t), &v) == nil }},
-	{"UnmarshalDecode/any", func(a *towerArgs, t []byte) bool {
+	{"Unmarshal/slice-of-Value", 1, func(a *towerArgs, t []byte) bool {
+		var v []jsontext.Value
+		in := append(append([]byte(`[`), t...), ']')
+		return json.Unmarshal(in, &v) == nil
+	}},
+	{"Marshal/struct-field", 1, func(a *towerArgs, t []byte) bool {
+		_, err := json.Marshal(struct{ X any }{a.goValue(0, nil)})
+		return err == nil
+	}},
+	{"Marshal/map-of-Value", 1, func(a *towerArgs, t []byte) bool {
+		_, err := json.Marshal(map[string]jsontext.Value{"k": jsontext.Value(t)})
+		return err == nil
+	}},
+	{"Marshal/ptr-slice-any", 2, func(a *towerArgs, t []byte) bool {
+		v := []any{[]jsontext.Value{t}}
+		_, err := json.Marshal(&v)
+		return err == nil
+	}},
+	{"UnmarshalRead/any", 0, func(a *towerArgs, t []byte) bool { var v any; return json.UnmarshalRead(bytes.NewReader(t), &v) == nil }},
+	{"UnmarshalDecode/any", 0, func(a *towerArgs, t []byte) bool {
 		var v any
 		return json.UnmarshalDecode(jsontext.NewDecoder(bytes.NewReader(t)), &v) == nil
 	}},
-	{"v1.Valid", func(a *towerArgs, t []byte) bool { return v1.Valid(t) }},
-	{"v1.Compact", func(a *towerArgs, t []byte) bool { return v1.Compact(new(bytes.Buffer), t) == nil }},
-	{"v1.Indent", func(a *towerArgs, t []byte) bool { return v1.Indent(new(bytes.Buffer), t, "", "") == nil }},
-	{"v1.Unmarshal/any", func(a *towerArgs, t []byte) bool { var v any; return v1.Unmarshal(t, &v) == nil }},
-	{"v1.Decoder.Decode", func(a *towerArgs, t []byte) bool { var v any; return v1.NewDecoder(bytes.NewReader(t)).Decode(&v) == nil }},
-	{"v1.Decoder.Token", func(a *towerArgs, t []byte) bool {
+	{"v1.Valid", 0, func(a *towerArgs, t []byte) bool { return v1.Valid(t) }},
+	{"v1.Compact", 0, func(a *towerArgs, t []byte) bool { return v1.Compact(new(bytes.Buffer), t) == nil }},
+	{"v1.Indent", 0, func(a *towerArgs, t []byte) bool { return v1.Indent(new(bytes.Buffer), t, "", "") == nil }},
+	{"v1.Unmarshal/any", 0, func(a *towerArgs, t []byte) bool { var v any; return v1.Unmarshal(t, &v) == nil }},
+	{"v1.Decoder.Decode", 0, func(a *towerArgs, t []byte) bool { var v any; return v1.NewDecoder(bytes.NewReader(t)).Decode(&v) == nil }},
+	{"v1.Decoder.Token", 0, func(a *towerArgs, t []byte) bool {
 		d := v1.NewDecoder(bytes.NewReader(t))
 		for i := 0; i <= len(t); i++ {
 			if _, err := d.Token(); err != nil {
@@ -301,23 +309,23 @@ var towerPaths = []towerPath{
 		}
 		return false
 	}},
-	{"Marshal/any", func(a *towerArgs, t []byte) bool { _, err := json.Marshal(a.goValue(0, nil)); return err == nil }},
-	{"Marshal/any+det", func(a *towerArgs, t []byte) bool {
+	{"Marshal/any", 0, func(a *towerArgs, t []byte) bool { _, err := json.Marshal(a.goValue(0, nil)); return err == nil }},
+	{"Marshal/any+det", 0, func(a *towerArgs, t []byte) bool {
 		_, err := json.Marshal(a.goValue(0, nil), json.Deterministic(true))
 		return err == nil
 	}},
-	{"Marshal/any+strnum", func(a *towerArgs, t []byte) bool {
+	{"Marshal/any+strnum", 0, func(a *towerArgs, t []byte) bool {
 		_, err := json.Marshal(a.goValue(0, nil), json.StringifyNumbers(true)) // disables the any fast path
 		return err == nil
 	}},
-	{"MarshalWrite/any", func(a *towerArgs, t []byte) bool { return json.MarshalWrite(io.Discard, a.goValue(0, nil)) == nil }},
-	{"MarshalEncode/any", func(a *towerArgs, t []byte) bool {
+	{"MarshalWrite/any", 0, func(a *towerArgs, t []byte) bool { return json.MarshalWrite(io.Discard, a.goValue(0, nil)) == nil }},
+	{"MarshalEncode/any", 0, func(a *towerArgs, t []byte) bool {
 		return json.MarshalEncode(jsontext.NewEncoder(io.Discard), a.goValue(0, nil)) == nil
 	}},
-	{"v1.Marshal/any", func(a *towerArgs, t []byte) bool { _, err := v1.Marshal(a.goValue(0, nil)); return err == nil }},
-	{"v1.Encoder.Encode/any", func(a *towerArgs, t []byte) bool { return v1.NewEncoder(io.Discard).Encode(a.goValue(0, nil)) == nil }},
-	{"Marshal/Value", func(a *towerArgs, t []byte) bool { _, err := json.Marshal(jsontext.Value(t)); return err == nil }},
-	{"Marshal/*Value", func(a *towerArgs, t []byte) bool {
+	{"v1.Marshal/any", 0, func(a *towerArgs, t []byte) bool { _, err := v1.Marshal(a.goValue(0, nil)); return err == nil }},
+	{"v1.Encoder.Encode/any", 0, func(a *towerArgs, t []byte) bool { return v1.NewEncoder(io.Discard).Encode(a.goValue(0, nil)) == nil }},
+	{"Marshal/Value", 0, func(a *towerArgs, t []byte) bool { _, err := json.Marshal(jsontext.Value(t)); return err == nil }},
+	{"Marshal/*Value", 100, func(a *towerArgs, t []byte) bool {
 		v := jsontext.Value(t)
 		_, err := json.Marshal(&v, jsontext.Multiline(true), jsontext.WithIndent(""))
 		return err == nil
@@ -367,8 +375,8 @@ func (a *towerArgs) shape() string {
 	return fmt.Sprintf("%s/%d/%s/sib=%v/ws=%v", a.Mix, a.Depth, a.Inner, a.Sib, a.WS)
 }
 
-func verdict(w *run.W, family, path string, a *towerArgs, extra string, accept bool) {
-	want := a.Depth <= maxDepth
+func verdict(w *run.W, family, path string, a *towerArgs, extra string, plus int, accept bool) {
+	want := a.Depth+plus <= maxDepth
 	w.Eval(1)
 	w.Shape(family + "|" + path + "|" + a.shape() + "|" + extra)
 	if accept {
@@ -376,12 +384,12 @@ func verdict(w *run.W, family, path string, a *towerArgs, extra string, accept b
 	} else {
 		w.Count(family+"_refuse", 1)
 	}
-	if a.Depth == maxDepth || a.Depth == maxDepth+1 {
+	if a.Depth+plus == maxDepth || a.Depth+plus == maxDepth+1 {
 		w.Count(family+"_at_boundary", 1)
 	}
 	if accept != want {
 		w.Violate("depth-limit", map[string]string{"family": family, "path": path, "mix": a.Mix, "inner": a.Inner, "want_accept": fmt.Sprint(want)},
-			"%s path %s %s: depth %d (%s) accept=%v, want accept=%v (limit %d)", family, path, extra, a.Depth, a.shape(), accept, want, maxDepth)
+			"%s path %s %s: depth %d+%d (%s) accept=%v, want accept=%v (limit %d)", family, path, extra, a.Depth, plus, a.shape(), accept, want, maxDepth)
 	}
 }
 
@@ -397,16 +405,28 @@ func runTower(w *run.W, a *towerArgs) {
 	}
 	w.Count("towers", 1)
 	for _, p := range towerPaths {
-		verdict(w, "tower", p.name, a, "", p.fn(a, text))
+		if p.plus >= 100 {
+			// Multiline output costs O(depth^2) even with an empty indent
+			if a.Depth > 1000 && (a.WS || a.Sib) {
+				continue
+			}
+			p.plus -= 100
+		}
+		t0 := time.Now()
+		acc := p.fn(a, text)
+		if w.Replay {
+			fmt.Fprintf(os.Stderr, "tower path %-34s accept=%-5v %v\n", p.name, acc, time.Since(t0)) // diagnostics only, never in oracles
+		}
+		verdict(w, "tower", p.name, a, "", p.plus, acc)
 	}
 	for _, tgt := range a.typedTargets() {
 		name := fmt.Sprintf("Unmarshal/%T", tgt)
 		err := json.Unmarshal(text, tgt)
-		verdict(w, "tower", name, a, "", err == nil)
+		verdict(w, "tower", name, a, "", 0, err == nil)
 		if err == nil {
 			// the decoded typed value marshals again (relational: same depth by construction)
 			_, err = json.Marshal(tgt)
-			verdict(w, "tower", "Marshal-of-"+name, a, "", err == nil)
+			verdict(w, "tower", "Marshal-of-"+name, a, "", 0, err == nil)
 		}
 	}
 }
@@ -548,5 +568,5 @@ func runSplit(w *run.W, s *splitArgs) {
 		w.Broken("split: unknown side %q", s.Side)
 		return
 	}
-	verdict(w, "split", s.Side, a, fmt.Sprintf("k=%d", s.K), accept)
+	verdict(w, "split", s.Side, a, fmt.Sprintf("k=%d", s.K), 0, accept)
 }
